@@ -3,7 +3,9 @@ EXTENDS TlsAccept, Json, IOUtils, TLC, Sequences, TraceUtil
 Rec == ndJsonDeserialize(IOEnv.TRACE)
 VARIABLE l
 Settings(e) == [certs |-> e.certs, hosts |-> e.hosts, root |-> e.root, rootIsLeaf |-> e.rootIsLeaf]
-Expected(e) == IF e.path \in {"tls-proxy-bad", "tls-proxy-good"} THEN AcceptBoth(e.chain, e.expired, e.nameOK, Settings(e), e.scope)
+\* (a peer that speaks no TLS is authenticated by nothing: no flag makes an exchange with it succeed)
+Expected(e) == IF e.path = "httpsproxy-plain" THEN FALSE
+               ELSE IF e.path \in {"tls-proxy-bad", "tls-proxy-good"} THEN AcceptBoth(e.chain, e.expired, e.nameOK, Settings(e), e.scope)
                ELSE Accept(e.chain, e.expired, e.nameOK, Settings(e), e.scope)
 \* success only when authenticated (or waived) ...
 G14_noUnauthenticatedSuccess(e) == e.res = "ok" => Expected(e)
